@@ -145,6 +145,14 @@ func (l *Ledger) OnApply(ev chaingen.ApplyEvent) {
 			l.LockedV1.Add(l.LockedV1, sumOuts(fc.ValidProofOutputs))
 		case d.Resolved && !d.Created:
 			l.LockedV1.Sub(l.LockedV1, sumOuts(fc.ValidProofOutputs))
+		case d.Revision != nil:
+			// a revision of a contract formed earlier: what it will pay out is what is locked from now on
+			was, now := sumOuts(fc.ValidProofOutputs), sumOuts(d.Revision.ValidProofOutputs)
+			if was.Cmp(now) != 0 || now.Cmp(sumOuts(d.Revision.MissedProofOutputs)) != 0 {
+				l.R.Violate(l.Prop+"/v1-revision-changes-what-the-contract-pays-out", fmt.Sprintf("at height %d a v1 contract paying out %v was revised to pay out %v (valid) / %v (missed)", h, was, now, sumOuts(d.Revision.MissedProofOutputs)), wit)
+			}
+			l.LockedV1.Add(l.LockedV1, new(big.Int).Sub(now, was))
+			l.R.Count("v1_revisions_checked_by_the_ledger", 1)
 		}
 	}
 	for _, d := range ev.AU.V2FileContractElementDiffs() {
